@@ -4,7 +4,7 @@ from props import heapcheck, heapspec, segspec
 import fontsynth
 
 GEN_MODULES = ["Vm"]
-ASSUMPTIONS = ["theorems: the forest invariant (child chains enumerate exactly the attached slots, no parent cycles, parents real and allocated) for every opcode, action program, garbage collection and the whole modelled left-to-right pipeline; frame and guard theorems; "
+ASSUMPTIONS = ["theorems: the forest invariant (child chains enumerate exactly the attached slots, no parent cycles, parents real and allocated) for every opcode, action program, garbage collection and the whole modelled pipeline (either direction, no bidi pass); frame and guard theorems; "
                "also proved: the parent of a stream slot is a stream slot; not proved: the base chain of linkClusters (not modelled), right-to-left - decided by the correspondence and the end-to-end predicate",
                "the loader's acceptance tests are not modelled: the component harness only runs programs the real loader accepted",
                "scalar opcodes inside action code use the regenerated Gen.Vm bodies"]
